@@ -273,15 +273,17 @@ Fixpoint sync_flag (c : N) (es : list rev) : bool :=
   | _ :: t => sync_flag c t
   end.
 
-(* a consumer that needs a sync has a sync request reach the remote after it joined; [WWritten] marks the
-   moments at which the remote read one more frame *)
+(* a consumer that needs a sync and stays has a sync request reach the remote after it joined; [WWritten] marks
+   the moments at which the remote read one more frame.  The k-th [WProducer] is consumer k; one that went away
+   is owed nothing (write_task forgets NEEDS_SYNC once no producer is left). *)
 Definition is_sync_frame (f : frame) : bool := match f with FSync => true | _ => false end.
-Fixpoint syncs_ok (es : list wev) (fs : list frame) : bool :=
+Fixpoint syncs_ok (dropped : list N) (k : N) (es : list wev) (fs : list frame) : bool :=
   match es with
   | [] => true
-  | WWritten :: t => syncs_ok t (tl fs)
-  | WProducer true :: t => existsb is_sync_frame fs && syncs_ok t fs
-  | _ :: t => syncs_ok t fs
+  | WWritten :: t => syncs_ok dropped k t (tl fs)
+  | WProducer true :: t => (existsb (N.eqb k) dropped || existsb is_sync_frame fs) && syncs_ok dropped (k + 1) t fs
+  | WProducer false :: t => syncs_ok dropped (k + 1) t fs
+  | _ :: t => syncs_ok dropped k t fs
   end.
 
 (* map downlinks: a command number n stands for `update key (n mod 3) -> n`; per key the operations sent are, in
@@ -302,7 +304,7 @@ Definition dl_oracle_ok (c : dcase) : bool :=
   (if dc_single c then is_subseq sent given && (negb (dc_drained c) || opt_eqb (last_opt sent) (last_opt given))
    else per_key_ok (dc_drained c) sent given)
   && (match dc_frames c with FLink :: _ | [] => true | _ => false end)
-  && (negb (dc_drained c) || syncs_ok (dc_wevs c) (dc_frames c))
+  && (negb (dc_drained c) || syncs_ok (dc_dropped c) 0 (dc_wevs c) (dc_frames c))
   (* every consumer gets the session it is owed *)
   && forallb (fun cs => session_ok (snd cs)
                         && (if gone c (fst cs)
